@@ -61,7 +61,16 @@ type Context struct {
 	jobconfigInformer executioninformers.JobConfigInformer
 	HasSynced         []cache.InformerSynced
 	queue             workqueue.RateLimitingInterface
-	updatedConfigs    chan *execution.JobConfig
+	updatedConfigs    chan *configUpdate
+}
+
+// configUpdate is a notification that a JobConfig has to be refreshed in the
+// schedule of the CronWorker.
+type configUpdate struct {
+	jobConfig *execution.JobConfig
+
+	// added is true if the JobConfig was added, rather than updated or deleted.
+	added bool
 }
 
 // NewContext returns a new Context.
@@ -80,7 +89,7 @@ func NewContext(context controllercontext.Context) *Context {
 		c.jobconfigInformer.Informer().HasSynced,
 	}
 
-	c.updatedConfigs = make(chan *execution.JobConfig, updatedConfigsBufferSize)
+	c.updatedConfigs = make(chan *configUpdate, updatedConfigsBufferSize)
 
 	return c
 }
